@@ -17,6 +17,7 @@ func SimC05(c *CheckCtx, i int, r *Rng) error {
 	var names []string
 	var gens []proto.GenScript
 	real := r.P(0.3)
+	twoModules := false
 	if real {
 		m, names = DrawRealModule(r, 2)
 		gens = RealGens(names)
@@ -30,11 +31,25 @@ func SimC05(c *CheckCtx, i int, r *Rng) error {
 		scfg.PStateful = 0.8 // stateful generators are what makes leakage visible
 		scfg.PNoNew = 0.5
 		gens = []proto.GenScript{Probe()}
+		if i%5 == 3 {
+			// packages of two local modules (a nested module reached through a replace directive) in one run:
+			// what a package's file looks like is decided by its own module (path, go version), never by
+			// the module of a package that happens to be processed with it
+			addSubModule(r, cfg, m)
+			twoModules = true
+			c.Env.Stats.Add("probe/two-module-world", 1)
+		}
 		for _, n := range names {
 			gens = append(gens, DrawScript(r, scfg, m, n))
 		}
+		if twoModules {
+			forceSubRefs(m, gens)
+		}
 	}
-	if !real && r.P(0.25) {
+	if !real && !twoModules && i%7 == 5 {
+		m, names, gens = walkWorld(r, base)
+		c.Env.Stats.Add("probe/shared-helper-results-world", 1)
+	} else if !real && !twoModules && r.P(0.25) {
 		m, names, gens = clashWorld(r, base)
 		c.Env.Stats.Add("probe/import-name-clash-world", 1)
 	}
@@ -56,7 +71,13 @@ func SimC05(c *CheckCtx, i int, r *Rng) error {
 		return &RunOp{Args: proto.GenArgs{Entrypoint: spell(r, m, eps), Base: base, All: all, Force: true, Globals: globals}, Gens: gens, Sched: drawSched(r), Fresh: r.P(0.5)}
 	}
 	sc := &Scenario{Kind: "compare-alone", Module: m, Base: base}
-	if r.P(0.45) {
+	if twoModules {
+		sel = sel[:0]
+		for pi := range m.Pkgs {
+			sel = append(sel, pi)
+		}
+	}
+	if !twoModules && r.P(0.45) {
 		allp := make([]int, len(m.Pkgs))
 		for k := range allp {
 			allp[k] = k
@@ -89,7 +110,9 @@ func SimC05(c *CheckCtx, i int, r *Rng) error {
 	}
 	sc.Variants = append(sc.Variants, Variant{Name: "together:0", Ops: []Op{{Kind: "run", Run: mk(perm(), false)}}})
 	sc.Variants = append(sc.Variants, Variant{Name: "together:1", Ops: []Op{{Kind: "run", Run: mk(perm(), false)}}})
-	sc.Variants = append(sc.Variants, Variant{Name: "together:all", Ops: []Op{{Kind: "run", Run: mk(perm()[:r.Range(1, len(sel))], true)}}})
+	if !twoModules {
+		sc.Variants = append(sc.Variants, Variant{Name: "together:all", Ops: []Op{{Kind: "run", Run: mk(perm()[:r.Range(1, len(sel))], true)}}})
+	}
 	if !real {
 		// the same process first serves a run that fails half-way (some generator callback returns an
 		// error after text was rendered): nothing of it may reach the files of the next run
@@ -185,6 +208,7 @@ func SimC13(c *CheckCtx, i int, r *Rng) error {
 	for k := 0; k < n; k++ {
 		sc.Variants = append(sc.Variants, Variant{Name: fmt.Sprintf("sched:shuf:%d", k), Ops: []Op{{Kind: "run", Run: &RunOp{Args: args, Sched: schedOf("shuf", r.U64())}}}})
 	}
+	sc.Variants = append(sc.Variants, Variant{Name: "sched:asc:locate-first", Ops: []Op{{Kind: "run", Run: &RunOp{Args: args, Sched: schedOf("asc", 0)}}}})
 	sc.Variants = append(sc.Variants, Variant{Name: "sched:asc:driver-fails-once", Ops: []Op{{Kind: "run", Run: &RunOp{Args: args, Sched: schedOf("asc", 0)}}}})
 	sc.Variants = append(sc.Variants, Variant{Name: "sched:asc:second-checkout", Ops: []Op{{Kind: "run", Run: &RunOp{Args: args, Sched: schedOf("asc", 0)}}}})
 	if r.P(0.25) {
@@ -194,14 +218,24 @@ func SimC13(c *CheckCtx, i int, r *Rng) error {
 	}
 	// the same questions in another order: MethodsOf before any name table of the package is touched
 	sc.Variants = append(sc.Variants, Variant{Name: "sched:asc:methods-first", Ops: []Op{{Kind: "run", Run: &RunOp{Args: args, Sched: schedOf("asc", 0)}}}})
-	if r.P(0.3) {
-		// generated files from an earlier run are part of the packages too
+	if r.P(0.4) {
+		// generated files from earlier runs are part of the packages too - new named types included; and
+		// the universe a run hands to its generators must be as right as the one Load returns: the second
+		// and third run inspect it from inside GenerateType
 		gens := []proto.GenScript{Probe()}
 		scfg := DrawScriptConfig(r)
+		scfg.PDeclTypes = 0.5
 		for _, nme := range names {
-			gens = append(gens, DrawScript(r, scfg, m, nme))
+			g := DrawScript(r, scfg, m, nme)
+			g.Inspect = true
+			gens = append(gens, g)
 		}
-		sc.Setup = []Op{{Kind: "run", Run: &RunOp{Args: proto.GenArgs{Entrypoint: spell(r, m, all), Base: base, All: true}, Gens: gens, Sched: drawSched(r), Fresh: true}}}
+		run := &RunOp{Args: proto.GenArgs{Entrypoint: spell(r, m, all), Base: base, All: true, Force: true}, Gens: gens, Sched: drawSched(r), Fresh: true}
+		again := *run
+		again.Fresh = false
+		third := *run
+		sc.Setup = append(sc.Setup, Op{Kind: "run", Run: run}, Op{Kind: "run", Run: &again}, Op{Kind: "run", Run: &third})
+		c.Env.Stats.Add("probe/universe-inspected-from-generators", 1)
 	}
 	if _, err := c.RunScenario(sc, i); err != nil {
 		return err
@@ -235,6 +269,61 @@ func SimC13(c *CheckCtx, i int, r *Rng) error {
 // two packages share their last path segment; one package refers to both from
 // its generated file, another one only to the second. The name a file binds to
 // an import must not depend on what other files of the run imported.
+// walkWorld: handlers in two packages reach the same helpers of a third one - mutually recursive
+// ones (CheckObject <-> CheckArray) and a diamond (Both -> Left|Right -> Leaf) - and the generator
+// renders what Package.ResultsOf says about every function. What the universe answers for one package
+// must not depend on what it was asked while another package was processed.
+func walkWorld(r *Rng, base string) (*ModuleSpec, []string, []proto.GenScript) {
+	name := Pick(r, []string{"x", "g1", "alpha"})
+	m := &ModuleSpec{ModPath: Pick(r, modPaths), GoVer: Pick(r, goVers)}
+	raw := func(src ...string) []*Decl {
+		var out []*Decl
+		for i, s := range src {
+			out = append(out, &Decl{Kind: "raw", Name: fmt.Sprintf("raw%d", i), Fields: []string{s}})
+		}
+		return out
+	}
+	helperDir := Pick(r, []string{"walk", "internal/walk", "zwalk", "a0"}) // before or after its users in path order
+	helpers := &PkgSpec{Dir: helperDir, Name: helperDir[strings.LastIndex(helperDir, "/")+1:], Anchor: "Anchor0", DocTags: []Tag{{Marker: "+", Key: "gengo:" + name}}}
+	var errs []string
+	for _, e := range []string{"Object", "Array", "Leaf", "Left", "Right"} {
+		errs = append(errs, fmt.Sprintf("type Err%s struct{}\n\nfunc (*Err%s) Error() string { return %q }", e, e, e))
+	}
+	fns := []string{
+		"func CheckObject(n int) error {\n\tif n == 0 {\n\t\treturn &ErrObject{}\n\t}\n\treturn CheckArray(n - 1)\n}",
+		"func CheckArray(n int) error {\n\tif n == 0 {\n\t\treturn &ErrArray{}\n\t}\n\treturn CheckObject(n - 1)\n}",
+		"func Leaf(n int) error {\n\tif n > 0 {\n\t\treturn &ErrLeaf{}\n\t}\n\treturn nil\n}",
+		"func Left(n int) error {\n\tif n == 1 {\n\t\treturn &ErrLeft{}\n\t}\n\treturn Leaf(n)\n}",
+		"func Right(n int) error {\n\tif n == 2 {\n\t\treturn &ErrRight{}\n\t}\n\treturn Leaf(n)\n}",
+		"func Both(n int) error {\n\tif n > 5 {\n\t\treturn Left(n)\n\t}\n\treturn Right(n)\n}",
+	}
+	var src []string
+	for _, k := range r.Perm(len(fns)) {
+		src = append(src, fns[k])
+	}
+	helpers.Files = []*SrcFile{{Name: "doc.go", Decls: append([]*Decl{{Kind: "struct", Name: "Anchor0"}}, raw(append(errs, src...)...)...)}}
+	m.Pkgs = append(m.Pkgs, helpers)
+	entries := [][]string{
+		{"func Run(n int) error {\n\treturn dep0.CheckObject(n)\n}", "func Top(n int) error {\n\treturn dep0.Both(n)\n}"},
+		{"func Run(n int) error {\n\treturn dep0.CheckArray(n)\n}", "func Side(n int) error {\n\treturn dep0.Right(n)\n}", "func Other(n int) error {\n\treturn dep0.Left(n)\n}"},
+		{"func Both(n int) error {\n\tif err := dep0.CheckArray(n); err != nil {\n\t\treturn err\n\t}\n\treturn dep0.Both(n)\n}"},
+	}
+	dirs := []string{"api/alpha", "api/beta", "cmd/zeta"}
+	if r.P(0.5) {
+		dirs = []string{"b", "a", "c"}
+	}
+	for k, dir := range dirs {
+		p := &PkgSpec{Dir: dir, Name: dir[strings.LastIndex(dir, "/")+1:], Anchor: fmt.Sprintf("Anchor%d", k+1), Imports: []int{0}, DocTags: []Tag{{Marker: "+", Key: "gengo:" + name}}}
+		p.Files = []*SrcFile{{Name: "doc.go", Decls: append([]*Decl{{Kind: "struct", Name: p.Anchor}}, raw(entries[k]...)...)}}
+		m.Pkgs = append(m.Pkgs, p)
+	}
+	g := proto.GenScript{Name: name, Impl: Pick(r, []string{"new", "nonew"}), Rules: map[string]proto.Rule{}, AliasRules: map[string]proto.Rule{}}
+	for pi, p := range m.Pkgs {
+		g.Rules[m.ImportPath(pi)+" "+p.Anchor] = proto.Rule{Render: []proto.Part{{Results: true}}}
+	}
+	return m, []string{name}, []proto.GenScript{Probe(), g}
+}
+
 func clashWorld(r *Rng, base string) (*ModuleSpec, []string, []proto.GenScript) {
 	name := Pick(r, []string{"x", "g1", "alpha"})
 	cfg := DrawSpecConfig(r, []string{name}, base)
